@@ -57,9 +57,8 @@ func (b *exampleBuilder) buildExampleForObjectNode(node *ischema.ObjectNode) ([]
 	defer exampleBufferPool.Put(buf)
 
 	buf.WriteByte('{')
-	children := node.Children()
-	length := len(children)
-	for i, childNode := range children {
+	first := true
+	for i, childNode := range node.Children() {
 		ex, err := b.Build(childNode)
 		if err != nil {
 			return nil, err
@@ -74,13 +73,16 @@ func (b *exampleBuilder) buildExampleForObjectNode(node *ischema.ObjectNode) ([]
 			return nil, err
 		}
 
+		// The separator goes before every emitted member but the first one:
+		// a skipped member must not leave a separator behind.
+		if !first {
+			buf.WriteByte(',')
+		}
+		first = false
 		buf.WriteByte('"')
 		buf.Write(k)
 		buf.WriteString(`":`)
 		buf.Write(ex)
-		if i+1 != length {
-			buf.WriteByte(',')
-		}
 	}
 	buf.WriteByte('}')
 	// The buffer goes back to the pool: hand out a copy.
@@ -126,9 +128,8 @@ func (b *exampleBuilder) buildExampleForArrayNode(node *ischema.ArrayNode) ([]by
 	defer exampleBufferPool.Put(buf)
 
 	buf.WriteByte('[')
-	children := node.Children()
-	length := len(children)
-	for i, childNode := range children {
+	first := true
+	for _, childNode := range node.Children() {
 		ex, err := b.Build(childNode)
 		if err != nil {
 			return nil, err
@@ -138,10 +139,11 @@ func (b *exampleBuilder) buildExampleForArrayNode(node *ischema.ArrayNode) ([]by
 			continue
 		}
 
-		buf.Write(ex)
-		if i+1 != length {
+		if !first {
 			buf.WriteByte(',')
 		}
+		first = false
+		buf.Write(ex)
 	}
 	buf.WriteByte(']')
 	// The buffer goes back to the pool: hand out a copy.
